@@ -11,6 +11,8 @@ use serde::{Deserialize, Serialize};
 ///  7 hash-adversarial family (see DESIGN C01 note 3): 16-byte blocks whose first 8 bytes equal an
 ///    ahash fallback key word, so the second 8 bytes are multiplied by zero
 ///  8 the seed's little-endian bytes (distinct by construction)
+///  9 random bytes followed by a long run of zero bytes (4096 + seed%4096, at most len-1): an uncompressed
+///    raster / elevation tile
 #[derive(Clone, Copy, Debug, PartialEq, Eq, Hash, Serialize, Deserialize, PartialOrd, Ord)]
 pub struct ContentSpec {
     pub kind: u8,
@@ -70,6 +72,15 @@ impl ContentSpec {
                     ch[8..16].copy_from_slice(&r.next().to_le_bytes());
                 }
             }
+            9 => {
+                let mut r = Sm(u64::from(self.seed) ^ 0x2e80);
+                r.fill(&mut v);
+                let z = (4096 + (self.seed as usize & 0xfff)).min(len - 1);
+                for b in &mut v[len - z..] {
+                    *b = 0;
+                }
+                v[0] |= 1;
+            }
             8 => {
                 // the seed itself, little endian (distinct seeds < 2^(8*len) give distinct contents)
                 let b = self.seed.to_le_bytes();
@@ -124,4 +135,16 @@ pub fn pool(max: usize, allow_big: bool, allow_adv: bool) -> impl Strategy<Value
             })
             .collect()
     })
+}
+
+/// now and then make pool[0] / pool[1] two contents of one length beyond 16 KiB that differ in a single byte in
+/// the middle (same head, same tail): whatever identifies a content by a sample of its bytes confuses them
+pub fn with_mid_pair(mut pool: Vec<ContentSpec>, flag: u8) -> Vec<ContentSpec> {
+    if flag % 12 == 0 && pool.len() >= 2 {
+        let len = [16_385u32, 20_000, 40_000, 70_001][usize::from(flag / 12) % 4];
+        let s = 0x5151 + u32::from(flag);
+        pool[0] = ContentSpec { kind: 0, len, seed: s };
+        pool[1] = ContentSpec { kind: 5, len, seed: (s << 8) | 1 };
+    }
+    pool
 }
